@@ -350,7 +350,11 @@ def build():
          modifies=["self.credit_units_for_pricing_tiers", "self.reset_pricing_tier_count_this_game"], raises={})
     C.fn("Credits._reset_timeouts", requires=[INIT], ensures=["U() == old(U())"], modifies=["self.delay.pending"],
          raises={}, no_inv=True)
-    C.fn("Credits._game_ended", requires=[INIT], ensures=["U() == old(U())"],
+    C.fn("Credits._game_ended", requires=[INIT],
+         ensures=["U() == old(U())",
+                  ("GE1: every game end - whatever the balance - re-arms the pricing-tier restart for the next game (the "
+                   "flag that suppresses the tier restart at ball 2 never outlives its game)",
+                   "self.reset_pricing_tier_count_this_game == False")],
          modifies=["self.delay.pending", "self.reset_pricing_tier_count_this_game"], raises={})
 
     C.assume("machine-variable store and settings store behave as maps (get returns the last set); their own "
@@ -594,4 +598,11 @@ def build_extra():
     c06.pid = "C20b"
     c06.replay_pid = "C06"
     c06.only_verify = ["Game._player_add_request_complete", "Game.request_player_add"]
-    return [c06, setup_set()]
+    # free_play is a setting: it is read from its machine variable on every access, also when the stored value is falsy
+    # (credit play = False) (C16's settings contract SV1, restricted)
+    from . import C16
+    c16 = C16.resubscribe_set()
+    c16.pid = "C20v"
+    c16.replay_pid = "C16"
+    c16.only_verify = ["SettingsController.get_setting_value"]
+    return [c06, setup_set(), c16]
